@@ -113,7 +113,9 @@ def dep_spec(draw, family, pname, x0, x1, nontrivial=True, saturating_only=False
             cands = ["logistics4"]
         elif v1 > v0:
             cands = ["logistics4", "exp3_sat", "asymdecrease3"]
-            if poly_ok:  # polynomial growth stays finite for every x the integrators visit
+            # polynomial growth stays finite for every x the integrators visit - but only for location / scale
+            # parameters: a shape parameter of 1e9 (an exponent) overflows inside the density
+            if poly_ok and pname in ("mu", "alpha", "sigma", "scale", "mu_norm", "sigma_norm"):
                 cands += ["power3", "linear2", "poly3"]
         else:
             cands = ["logistics4", "exp3", "asymdecrease3"]
